@@ -148,6 +148,27 @@ def Arr.set {α : Type} (a : Arr α) (i : Nat) (v : α) : Arr α := ⟨a.n, fun 
 def Arr2.set {α : Type} (a : Arr2 α) (i j : Nat) (v : α) : Arr2 α :=
   ⟨a.n, a.m, fun k l => if k = i ∧ l = j then v else a.get k l⟩
 
+/-- the same array with its elements computed once (what NumPy does: a vector expression is evaluated eagerly);
+    extensionally the identity (`Arr.memo_eq` in RealInst) -/
+def Arr.memo {α : Type} (a : Arr α) : Arr α :=
+  let cache := (Array.range a.n).map a.get
+  ⟨a.n, fun i => if h : i < cache.size then cache[i] else a.get i⟩
+
+/-! ### NumPy primitives used by vectorised code (contracts of the library functions) -/
+namespace Np
+variable {α : Type} [RealLike α]
+/-- `np.logspace(a, b, n)` = `10 ** np.linspace(a, b, n)`; linspace is `a + i*step` with the last point forced to `b` -/
+def logspace (a b : α) (n : Nat) : Arr α := ⟨n, fun i =>
+  let y : α :=
+    if n ≤ 1 then a
+    else if i + 1 == n then b
+    else a + RealLike.ofNat i * ((b - a) / RealLike.ofNat (n - 1))
+  RealLike.pow (RealLike.ofNat 10) y⟩
+/-- `np.searchsorted(grid, v, side='left')` on a sorted grid: the number of grid points `< v` -/
+def searchsortedLeft (grid : Arr α) (v : α) : Nat :=
+  forRange grid.n 0 (fun i cnt => if RealLike.lt (grid.get i) v then cnt + 1 else cnt)
+end Np
+
 namespace Arr
 variable {α : Type} [RealLike α]
 /-- `np.mean(a)`: left-to-right sum divided by the length -/
